@@ -4,6 +4,7 @@ from vlib import family as F
 from vlib import oracles as O
 from vlib import probes as P
 from vlib import workload as W
+from vlib import nest as N
 from vlib.shard import Acc
 
 PROP = "C04"
@@ -12,12 +13,12 @@ META = {
     "claim": "Held on the executed runs: for two-sided histories over disjoint objects (ownership by top-level entry of a synchronised nested base tree) the quiescent trees of both sides equal base + both deltas computed on a plain dict model; no '.conflicted' artefact, no resurrected delete, no object at old and new name, folder renames keep their children.",
     "note": 'Trusted: dict model of user ops; disjointness by construction makes the expected merge unique. Same hazard exclusions as C03 (HD, HF, HC) with thorough-tier hazard-seeking attribution.',
     "technique": 'runtime monitoring: three-way-merge model oracle over observed quiescent trees',
-    "plan": {"quick": {"shards": 16, "timeout": 600, "cases": 12000},
-             "thorough": {"shards": 32, "timeout": 3000, "cases": 300000, "seek": 40000}},
+    "plan": {"quick": {"shards": 16, "timeout": 600, "cases": 12000, "nest": 6000},
+             "thorough": {"shards": 32, "timeout": 3000, "cases": 300000, "seek": 40000, "nest": 150000}},
     "rule": "case = two-sided history over disjoint objects (family DISJ: ownership by top-level entry of a synchronised "
             "base tree with nested folders; deletes, renames, moves, edits, mkdir/rmdir, isolated folder renames with "
             "children), flavour x shape round-robin, 4-12 ops; distinct = distinct case signature; non-trivial = >= 1 "
-            "engine write after the base tree.  thorough adds un-isolated folder renames / name re-use (attributed to K1/K2 or reported)",
+            "engine write after the base tree.  plus family NEST (folder renames/moves on one side racing with file create/write/in-place rename/move-in inside them on the other side, id-stable providers, object-addressed ops, object-graph expectation).  thorough adds un-isolated folder renames / name re-use (attributed to K1/K2 or reported)",
     "assumptions": ["expected tree = base with both sides' deltas applied on a plain dict model (possible because objects are disjoint)"],
 }
 
@@ -74,6 +75,26 @@ def shard(ctx, acc):
                 acc.known_hit(ks[0], W.brief_case(case))
             else:
                 acc.violation("seek:" + probs[0][0], probs[:4], case)
+    # NEST: folder renames / moves on one side racing with content operations inside those folders on the other side
+    # (id-stable providers, object-addressed operations, object-graph expectation)
+    for i in F.indices(ctx, plan.get("nest", 0)):
+        case = N.make_case(ctx.seed, i)
+        probs, st = N.run_case(case)
+        acc.evaluations += 1
+        acc.count("nest_cases")
+        acc.count("engine_steps", st["steps"])
+        acc.count("engine_writes", st["writes"])
+        acc.count("user_ops", st["user_ops"])
+        hp = [p for p in probs if str(p[0]).startswith("harness")]
+        if hp:
+            acc.inconclusive.append(str(hp[0])[:200])
+            continue
+        if st["writes"]:
+            acc.sigs.add("nest:%d" % i)
+        if i < 2:
+            acc.sample(N.brief(case), cap=6)
+        if probs:
+            acc.violation("nest:" + probs[0][0], probs[:4], case)
     if ctx.shard == 0:
         P.run_probes(PROP, acc, lambda c: run(c, count=False))
 
@@ -83,4 +104,21 @@ def conclusive(acc, tier):
 
 
 coverage_extra = E.coverage_extra
-replay = E.replay_with(lambda c: run(c, count=False))
+_replay_main = E.replay_with(lambda c: run(c, count=False))
+
+
+def replay(rep):
+    c = rep.get("case") or {}
+    if c.get("family") == "NEST":
+        hits = 0
+        for k in range(6):
+            cc = dict(c)
+            cc["sim_seed"] = c.get("sim_seed", 0) + k
+            p, _ = N.run_case(cc)
+            if p:
+                hits += 1
+                if hits == 1:
+                    print(str(p[:3])[:1200])
+        print("reproduction rate %d/6" % hits)
+        return 1 if hits else 0
+    return _replay_main(rep)
